@@ -425,6 +425,8 @@ class Engine:
         name = '%s/%s.%s#%d' % (fn, kind, label, len(self.obls))
         if '?' in st.trace:
             extra = dict(extra or {}, uncertain_path=True)
+        if any(t.startswith('~') for t in st.trace):
+            extra = dict(extra or {}, weak_path=True)
         self.obls.append(Obl(name, props if props is not None else self.cur_contract.props,
                              st.pc, goal, kind, fn, label, '.'.join(st.trace), line, extra))
 
@@ -786,6 +788,10 @@ class Engine:
         if ordn is None:
             raise Unsupported('loop not indexed')
         spec = self.cur_loops.get(ordn)
+        if spec is None:
+            # a loop without a sidecar invariant is cut with a plain havoc: whatever is not
+            # proved below it may be lost information, not a property of the code
+            self._unannotated_loop = node.lineno
         return ordn, spec
 
     def assigned_names(self, nodes):
@@ -935,6 +941,8 @@ class Engine:
         self.check_inv(st, spec, pre, {}, 'init', ordn, s.lineno)
         head = st.fork()
         self.havoc_for_loop(head, s.body + [ast.Expr(value=s.test)], spec)
+        if spec is None:
+            head.trace.append('~L%d' % s.lineno)
         self.assume_inv(head, spec, pre, {})
         outs = []
         dec0 = None
@@ -996,6 +1004,8 @@ class Engine:
         self.check_inv(st, spec, pre, cursor.info(), 'init', ordn, s.lineno)
         head = st.fork()
         self.havoc_for_loop(head, s.body + [ast.Expr(value=s.target)], spec)
+        if spec is None:
+            head.trace.append('~L%d' % s.lineno)
         cursor = cursor.havoc(self, head)
         self.assume_inv(head, spec, pre, cursor.info())
         outs = []
